@@ -33,6 +33,17 @@ func buildWorker(name string, flags ...string) (string, error) {
 	tag := strings.NewReplacer("-", "", "=", "", " ", "", "/", "").Replace(strings.Join(flags, ""))
 	out := filepath.Join(work(), "bin", name+tag)
 	args := append([]string{"build", "-tags", "verif"}, flags...)
+	if core.Repo() != "/repo" {
+		// triage against a scratch copy of the repository (REPO=...): same module, other replace target
+		alt := filepath.Join(work(), "alt.mod")
+		os.MkdirAll(work(), 0o755)
+		gomod := "module verif/harness\n\ngo 1.21\n\nrequire github.com/200sc/bebop v0.0.0\n\nreplace github.com/200sc/bebop => " + core.Repo() + "\n"
+		os.WriteFile(alt, []byte(gomod), 0o644)
+		if b, err := os.ReadFile(filepath.Join(core.Root(), "harness", "go.sum")); err == nil {
+			os.WriteFile(filepath.Join(work(), "alt.sum"), b, 0o644)
+		}
+		args = append(args, "-modfile="+alt)
+	}
 	args = append(args, "-o", out, "./cmd/"+name)
 	cmd := exec.Command("go", args...)
 	cmd.Dir = filepath.Join(core.Root(), "harness")
